@@ -75,7 +75,14 @@ func execWait(c WaitCase) (vh.Outcome, error) {
 	if err != nil {
 		return out, vh.Errf("NewServer: %v", err)
 	}
-	defer vh.Catch(func() { srv.Close() })
+	defer func() { // bounded: an agent whose mutex is stuck must not hold up the report
+		closed := make(chan struct{})
+		go func() { _ = vh.Catch(func() { srv.Close() }); close(closed) }()
+		select {
+		case <-closed:
+		case <-time.After(2 * time.Second):
+		}
+	}()
 	var ends []net.Conn
 	defer func() {
 		for _, e := range ends {
@@ -151,11 +158,13 @@ func execWait(c WaitCase) (vh.Outcome, error) {
 			if time.Now().After(deadline) {
 				return out, vh.Errf("fresh server, %d connection(s) sent the wait frame for code %d at the moment the first request with that code arrived on another connection: %d of the %d wait frames never got their response although %d requests with code %d were served afterwards (5 s)", c.Waiters, x, c.Waiters-got, c.Waiters, served, x)
 			}
+			_ = req.SetWriteDeadline(time.Now().Add(20 * time.Second))
 			if werr := wfWrite(req, []byte{byte(x)}); werr != nil {
-				return out, vh.Errf("code %d: writing the request failed: %v", x, werr)
+				return out, vh.Errf("code %d: writing the request failed (wait frames for that code are parked on %d other connection(s)): %v", x, c.Waiters-got, werr)
 			}
+			_ = req.SetReadDeadline(time.Now().Add(20 * time.Second))
 			if _, rerr := wfRead(req); rerr != nil {
-				return out, vh.Errf("code %d: the request with that code got no response: %v", x, rerr)
+				return out, vh.Errf("code %d: the request with that code got no response within 20 s while wait frames for it are parked on %d other connection(s): %v", x, c.Waiters-got, rerr)
 			}
 			served++
 			time.Sleep(50 * time.Microsecond)
